@@ -1406,7 +1406,40 @@ pub fn reset_world(prefix: &[u8], horizon: usize, log_on: bool) {
 }
 
 /// Run one execution of `cfg` under the choice prefix `prefix`.
+/// In-process hang watchdog: every thread publishes the execution it is running; `watchdog` (started
+/// by `sx check`) reports an execution that does not return and ends the process with status 3.
+pub struct Slot {
+    pub what: Option<(String, Vec<u8>, std::time::Instant)>,
+}
+pub static SLOTS: std::sync::Mutex<Vec<std::sync::Arc<std::sync::Mutex<Slot>>>> = std::sync::Mutex::new(Vec::new());
+thread_local! {
+    static MY_SLOT: std::sync::Arc<std::sync::Mutex<Slot>> = {
+        let s = std::sync::Arc::new(std::sync::Mutex::new(Slot { what: None }));
+        SLOTS.lock().unwrap().push(s.clone());
+        s
+    };
+}
+pub fn watchdog(limit_s: u64) {
+    std::thread::spawn(move || loop {
+        std::thread::sleep(std::time::Duration::from_millis(500));
+        let slots: Vec<_> = SLOTS.lock().unwrap().clone();
+        for s in slots {
+            let g = s.lock().unwrap();
+            if let Some((name, ch, t0)) = &g.what {
+                if t0.elapsed().as_secs() >= limit_s {
+                    let ch: Vec<String> = ch.iter().map(|c| c.to_string()).collect();
+                    println!("SX-HANG {}|{}", name, ch.join(","));
+                    use std::io::Write;
+                    let _ = std::io::stdout().flush();
+                    std::process::exit(3);
+                }
+            }
+        }
+    });
+}
+
 fn trace_execution(cfg: &Cfg, prefix: &[u8]) {
+    MY_SLOT.with(|s| s.lock().unwrap().what = Some((cfg.name.clone(), prefix.to_vec(), std::time::Instant::now())));
     TRACE.with(|t| {
         let mut t = t.borrow_mut();
         if t.is_none() {
@@ -1429,6 +1462,7 @@ pub fn run(cfg: &Cfg, prefix: &[u8], log_on: bool) -> ExecResult {
     QUIET.with(|q| q.set(true));
     let r = run_inner(cfg, prefix, log_on);
     QUIET.with(|q| q.set(false));
+    MY_SLOT.with(|s| s.lock().unwrap().what = None);
     r
 }
 
@@ -1552,6 +1586,14 @@ fn run_inner(cfg: &Cfg, prefix: &[u8], log_on: bool) -> ExecResult {
         if let Err(e) = ep {
             panicked = Some(panic_msg(&e));
         }
+    }
+    if log_on {
+        // replay mode: say what is known before tear-down, in case tear-down itself never returns
+        use std::io::Write;
+        for v in w(|w| w.violations.clone()) {
+            println!("PRE-TEARDOWN [{}] {}: {}", v.prop, v.key, v.msg);
+        }
+        let _ = std::io::stdout().flush();
     }
     let td = std::panic::catch_unwind(std::panic::AssertUnwindSafe(|| run.teardown()));
     if let Err(e) = td {
